@@ -14,6 +14,7 @@ EDITS = [
  ('husband_node.go', '\tn := node.family.document.NodeByPointer(valueToPointer(node.value))', '\tpointer := valueToPointer(node.value)\n\tn := node.family.document.NodeByPointer(pointer)'),
  ('html/individual_name.go', '\tisLiving := c.individual.IsLiving()\n\tif isLiving {', '\tisLiving := c.individual.IsLiving()\n\n\t// Living individuals may be hidden.\n\tif isLiving {'),
  ('date_range.go', '\tcase valueTime.Equal(startTime):\n\t\treturn "e"\n\n\tcase valueTime.Equal(endTime):\n\t\treturn "E"\n\n\tcase valueTime.Before(startTime):\n\t\treturn "b"\n\n\tcase valueTime.After(endTime):\n\t\treturn "A"\n', '\tcase valueTime.Before(startTime):\n\t\treturn "b"\n\n\tcase valueTime.After(endTime):\n\t\treturn "A"\n\n\tcase valueTime.Equal(endTime):\n\t\treturn "E"\n\n\tcase valueTime.Equal(startTime):\n\t\treturn "e"\n'),
+ ('family_node.go', '\t\tnode.resetDocumentCaches()\n\t\tnode.husband = nil\n\t\tnode.cachedHusband = true\n', '\t\tnode.resetDocumentCaches()\n\t\tnode.resetCache()\n'),
  ('q/token.go', '\toriginalPosition := t.Position\n', '\toriginalPosition := t.Position // remember where we started\n'),
 ]
 tmp = tempfile.mkdtemp(prefix='gvharmless-')
